@@ -505,7 +505,10 @@ func TestVerifC08(t *testing.T) {
 			add(false, hdJoinOp(1, 1, 1), hdJoinOp(2, 2, 2), offer(1, "video", 3), req(2, 1, "video"), hdJoinOp(2, 1, 2), req(2, 1, "video"), incall, req(2, 1, "video"),
 				hdOp{K: "api", B: 0, SignAs: 0, R: 1, Api: "incall", RawRS: true, Users: []hdApiUser{{RS: 2, InCall: 0}}}, req(2, 1, "screen"),
 				hdOp{K: "api", B: 0, SignAs: 0, R: 1, Api: "incall", RawRS: true, Users: []hdApiUser{{RS: 2, InCall: 7}, {RS: 1, InCall: 0}}}, req(2, 1, "screen"),
-				hdJoinOp(2, 0, 0), hdJoinOp(2, 1, 2), req(2, 1, "video"))
+				hdJoinOp(2, 0, 0), hdJoinOp(2, 1, 2), req(2, 1, "video"),
+				// both in the call, the requester leaves the room (others stay) and comes back: it is not in the call any more
+				hdOp{K: "api", B: 0, SignAs: 0, R: 1, Api: "incall", RawRS: true, Users: []hdApiUser{{RS: 2, InCall: 7}, {RS: 1, InCall: 7}}}, req(2, 1, "video"),
+				hdJoinOp(2, 0, 0), hdJoinOp(2, 1, 2), req(2, 1, "screen"), hdJoinOp(2, 2, 2), hdJoinOp(2, 1, 2), req(2, 1, "screen"))
 			return out
 		}})
 }
